@@ -109,7 +109,8 @@ class Face(ElementBase):
         self.edges = [self.edges[i] for i in (1, 2, 3, 0)]
 
         # edges now run from what used to be their end point
-        for edge in self.edges:
+        # (self.parts lists each edge object once)
+        for edge in self.parts[4:]:
             edge.reverse()
 
         return self
@@ -145,7 +146,13 @@ class Face(ElementBase):
 
     @property
     def parts(self):
-        return self.points + self.edges
+        # an edge object that is used for several edges must only be transformed once
+        edges = []
+        for edge in self.edges:
+            if not any(edge is other for other in edges):
+                edges.append(edge)
+
+        return self.points + edges
 
     def project(self, label: str, edges: bool = False, points: bool = False) -> None:
         """Project this face to given geometry;
